@@ -32,6 +32,14 @@ func (c *ColBool) DecodeColumn(r *Reader, rows int) error {
 	if err := r.ReadFull(dst); err != nil {
 		return errors.Wrap(err, "read full")
 	}
+	// Memory is reinterpreted as []bool, so values other than 0 and 1 should
+	// not get there.
+	for i, v := range dst {
+		if v != boolTrue && v != boolFalse {
+			*c = (*c)[:len(*c)-rows] // drop invalid rows
+			return errors.Errorf("[%d]: bad value %d for Bool", i, v)
+		}
+	}
 	return nil
 }
 
